@@ -22,6 +22,8 @@ Definition S_FAILED : N := 3.
 Definition S_CANCELED : N := 4.
 
 Definition st_complete (s : N) : bool := (s =? S_SUCCEEDED) || (s =? S_FAILED).
+(* the states in which a unit is at rest for good: IsComplete, or cancelled *)
+Definition st_final (s : N) : bool := st_complete s || (s =? S_CANCELED).
 
 Inductive extra :=
 | XNone                                                   (* null / cleared *)
